@@ -189,7 +189,7 @@ Fixpoint qd_add (k v : pystr) (d : qdict) : qdict :=
   end.
 Definition qd_of_pairs (l : list (pystr * pystr)) : qdict :=
   fold_left (fun d kv => qd_add (fst kv) (snd kv) d) l [].
-Definition parse_qs (qs : pystr) : res qdict := l <- parse_qsl false qs ;; Ok (qd_of_pairs l).
+Definition parse_qs (keep_blank : bool) (qs : pystr) : res qdict := l <- parse_qsl keep_blank qs ;; Ok (qd_of_pairs l).
 
 (* Python dict equality on dicts with unique keys *)
 Definition qd_eqb (a b : qdict) : bool :=
@@ -237,10 +237,11 @@ Definition remove_port (p : parsed) : res parsed :=
 Definition norm_native (p : parsed) : res parsed :=
   if is_http p && is_localhost p then remove_port p else Ok p.
 
-(* urlparse(uri_base)._replace(query=None), (uri_qs_obj or {}) *)
+(* urlparse(uri_base)._replace(query=None), (uri_qs_obj or {}); a plain string contributes
+   parse_qs(urlparse(uri).query) *)
 Definition parse_reg (r : reg) : res (parsed * qdict) :=
   match r with
-  | RStr u => p <- urlparse u ;; Ok (p, [])
+  | RStr u => p <- urlparse u ;; qd <- parse_qs false (query p) ;; Ok (p, qd)
   | RPair b q => p <- urlparse b ;; Ok (p, match q with Some d => d | None => [] end)
   end.
 
@@ -259,17 +260,27 @@ Definition match1 (p : parsed) (qd : qdict) (r : parsed * qdict) : bool :=
 Definition norm_reg (r : parsed * qdict) : res (parsed * qdict) :=
   x <- norm_native (fst r) ;; Ok (x, snd r).
 
+(* req != req.strip() or any(ord(c) < 0x20 or ord(c) == 0x7F): on ASCII text str.strip() removes
+   9-13 and 28-32, all of which but the space are control characters anyway *)
+Definition dirty (d : pystr) : bool :=
+  existsb (fun c => (c <? 32) || (c =? 127)) d
+  || match d with c :: _ => c =? 32 | [] => false end
+  || match List.rev d with c :: _ => c =? 32 | [] => false end.
+
+(* the endpoint type no longer influences the verdict (argument kept for the case files) *)
 Definition verify_uri (regs : list reg) (native oidc : bool) (u : pystr) : res unit :=
   d <- unquote u ;;
+  if dirty d then Err uri_error else
   p <- urlparse d ;;
+  if has_c 35 d then Err uri_error else
   _ <- basic_checks p ;;
   match regs with
-  | [] => if oidc then Err redirect_error else Ok tt
+  | [] => Err redirect_error
   | _ =>
       rs <- mapM parse_reg regs ;;
       p' <- (if native then norm_native p else Ok p) ;;
       rs' <- (if native then mapM norm_reg rs else Ok rs) ;;
-      qd <- parse_qs (query p') ;;
+      qd <- parse_qs true (query p') ;;
       if existsb (match1 p' qd) rs' then Ok tt else Err redirect_error
   end.
 
@@ -338,8 +349,8 @@ Definition chk_parse_qsl (c : bool * pystr * res (list (pystr * pystr))) : bool 
   let '(kb, qs, out) := c in res_eqb (list_eqb pair_eqb) (parse_qsl kb qs) out.
 Definition qd_entry_eqb (a b : pystr * list pystr) : bool :=
   str_eqb (fst a) (fst b) && list_eqb str_eqb (snd a) (snd b).
-Definition chk_parse_qs (c : pystr * res qdict) : bool :=
-  res_eqb (list_eqb qd_entry_eqb) (parse_qs (fst c)) (snd c).
+Definition chk_parse_qs (c : bool * pystr * res qdict) : bool :=
+  let '(kb, qs, out) := c in res_eqb (list_eqb qd_entry_eqb) (parse_qs kb qs) out.
 
 (* verify_uri: (registered, native, oidc, uri, observed) *)
 Definition vcase := (list reg * bool * bool * pystr * res unit)%type.
